@@ -3,7 +3,7 @@ mandatory keys raise, every dimensioned setter interprets its value with the fie
 setters raise on the complement of their set, every position parameter is validated before use, externally
 supplied indices (coarse-graining map, environment indices, edge endpoints) are range-checked on both sides.
 Does not decide that every invalid *value* of every field is rejected."""
-import ast
+import ast, re
 
 from .. import pyfe, pya, ir, pykind
 from ..core import AnalysisError
@@ -414,6 +414,46 @@ def rule_extidx(ctx, py):
     ctx.floor(R, 6)
 
 
+def rule_itemdim(ctx, py):
+    """C20.ITEMDIM -- UnitArray.set_value: the number of an item given as a UnitValue is taken only after that item's
+    dimension was compared with the array's (directly, or by an unconditional convert(), which raises on a mismatch)"""
+    R = "C20.ITEMDIM"
+    f = py.fn("units.UnitArray.set_value")
+    uses = []
+
+    class C(pya.PyFacts):
+        def assume(self, cond, positive, cfg):
+            cfg = super().assume(cond, positive, cfg)
+            for t, pol in pya.atoms(cond, positive):
+                m = re.match(r"^(.*)\.units\.dim == self\.units\.dim$", t) or re.match(r"^self\.units\.dim == (.*)\.units\.dim$", t)
+                if m and pol:
+                    cfg = cfg | {(("dimchecked", m.group(1)), True)}
+            return cfg
+
+        def atom(self, node, cfg):
+            if isinstance(node, ast.Assign) and len(node.targets) == 1:
+                tg = pyfe.src(node.targets[0])
+                v = node.value
+                if isinstance(v, ast.Attribute) and v.attr == "value" and pyfe.src(v.value) == tg:
+                    if self.record:
+                        uses.append((node, tg, cfg))
+                    return cfg
+                if isinstance(v, ast.Call) and isinstance(v.func, ast.Attribute) and v.func.attr == "convert" and \
+                        pyfe.src(v.func.value) == tg and v.args and pyfe.src(v.args[0]) in ("self.units", "self._units"):
+                    return super().atom(node, cfg) | {(("dimchecked", tg), True)}
+                cfg = frozenset(x for x in cfg if not (isinstance(x[0], tuple) and x[0][0] == "dimchecked" and x[0][1] == tg))
+            return super().atom(node, cfg)
+    ir.Engine(C(), "must").run(ir.py_to_ir(f.body))
+    ctx.need(uses, R, "set_value: `item = item.value` not found")
+    for node, tg, cfg in uses:
+        ctx.check((("dimchecked", tg), True) in cfg, R, node, f._qual, pyfe.src(node)[:70],
+                  "after the item's dimension was compared with the array's",
+                  "the number of a UnitValue item is taken without comparing its dimension with the array's on every path "
+                  "(a convert() that runs only when the unit systems differ is not a check): items of another dimension are "
+                  "accepted as plain numbers")
+    ctx.floor(R, 1)
+
+
 def run(ctx):
     py = ctx.py
     rule_keys(ctx, py)
@@ -423,6 +463,7 @@ def run(ctx):
     rule_enum(ctx, py)
     rule_pos(ctx, py)
     rule_extidx(ctx, py)
+    rule_itemdim(ctx, py)
     # shared: the coarse-graining map (C16.VALID-FIRST + C16.M1) and the bounds entailment (C15.ENT)
     n0 = len(ctx.insts)
     c16.rule_valid_first(ctx, py)
@@ -431,4 +472,6 @@ def run(ctx):
     for i in ctx.insts[n0:]:
         i.rule = "C20.CGMAP" if i.rule.startswith("C16") else "C20.POS-ENT"
     ctx.floors = {k: v for k, v in ctx.floors.items() if k.startswith("C20")}
+    from .. import truth
+    truth.rule(ctx, "C20.TRUTH", ctx.py, ["rdnetwork", "rdgridspace", "rdgraphspace", "rdsystem", "rdscript", "value_processing", "units"], floor=100)
     ctx.assume("that every invalid *value* of every field is rejected is not decided; only the listed classes")
